@@ -1,4 +1,5 @@
 import Orca.Lemmas.Ops
+import Orca.Lemmas.Preserve
 /-!
 # C09 — deletion removes exactly the deleted entity
 -/
@@ -48,5 +49,21 @@ theorem c09_output_has_no_deleted (x : Space) (I : List ImpEntry) (sp : Sp) (inv
     ∃ ys, remap x = some ys ∧ impUids I sp ++ emittedLocals ys = ys.map (·.uid) ∧ ∀ y ∈ ys, y.del = false := by
   obtain ⟨ys, h, R⟩ := remap_spec x I sp inv
   exact ⟨ys, h, R.out, R.noDeleted⟩
+
+/-- `c09_dangling_is_loud` and `c09_output_has_no_deleted` after **any** history of edits on a parsed module, deletions of
+    anything in any order included (the state invariant is inductive: `stInv_step`, Lemmas/Preserve.lean) -/
+theorem c09_after_any_history (s0 : St) (h0 : StInv s0) (ops : List Op) (hn : NoEncode ops) :
+    let s := (run s0 ops).1
+    ((∃ s' F G M res st, encode s = (s', Ret.encoded F G M res st)
+        ∧ ∀ r' ∈ res ++ st.toList, ∃ r ∈ allRefs s, r'.site = r.site ∧ ∃ u, PointsTo s r u ∧ designated F G M r' = some u)
+      ∨ (∃ s' why, encode s = (s', Ret.panic why) ∧ ∃ r ∈ allRefs s, Dangling s r))
+    ∧ ∀ sp, ∃ ys, remap (s.space sp) = some ys ∧ impUids s.imports sp ++ emittedLocals ys = ys.map (·.uid) ∧ ∀ y ∈ ys, y.del = false := by
+  intro s
+  have h := stInv_run ops s0 hn h0
+  refine ⟨c09_dangling_is_loud _ h.f.spaceInv h.g.spaceInv h.m.spaceInv, fun sp => ?_⟩
+  cases sp
+  · exact c09_output_has_no_deleted _ _ _ h.f.spaceInv
+  · exact c09_output_has_no_deleted _ _ _ h.g.spaceInv
+  · exact c09_output_has_no_deleted _ _ _ h.m.spaceInv
 
 end Orca.Edit
